@@ -54,9 +54,24 @@ def mark(detail=None):
             f.write(json.dumps({'index': _CUR_INDEX, 'detail': detail}, default=str))
 
 
+def _worker_timeout():
+    # a worker stuck (or simply too slow) is a harness problem, never "the reading process died"
+    if _WORKER_MARK:
+        try:
+            with open(os.path.join(_WORKER_MARK, f'timeout-{os.getpid()}'), 'w') as f:
+                f.write(json.dumps({'index': _CUR_INDEX}))
+        except OSError:
+            pass
+    faulthandler.dump_traceback(all_threads=True)
+    os._exit(3)
+
+
 def _worker_entry(batch, deadline, per_batch_timeout):
     global _CUR_INDEX
-    faulthandler.dump_traceback_later(per_batch_timeout, exit=True)
+    import threading
+    wd = threading.Timer(per_batch_timeout, _worker_timeout)
+    wd.daemon = True
+    wd.start()
     out = []
     try:
         for idx, item in batch:
@@ -72,7 +87,7 @@ def _worker_entry(batch, deadline, per_batch_timeout):
             except OSError:
                 pass
     finally:
-        faulthandler.cancel_dump_traceback_later()
+        wd.cancel()
     return out
 
 
@@ -128,6 +143,9 @@ def run_parallel(fn, ctx, items, nproc=None, deadline=None, chunk=20, per_batch_
             raise HarnessFailure('worker process died (no crash attribution requested)')
         dead = set()
         for name in os.listdir(mark_dir):
+            if name.startswith('timeout-'):
+                raise HarnessFailure(f'a worker exceeded its time limit of {per_batch_timeout}s (item index in '
+                                     f'{os.path.join(mark_dir, name)})')
             p = os.path.join(mark_dir, name)
             try:
                 rec = json.loads(open(p).read())
